@@ -20,7 +20,7 @@ RULE = ('queries = table(-table) JOIN model [JOIN table] with 0-4 WHERE conjunct
         'conjunct; distinct by (conjunct kinds, shape, catalog form)')
 ASSUMPTIONS = ['equalities on the model\'s target column (to_predict) are treated specially by the planner and are not generated',
                'an alias-prefixed USING option whose prefix is not the model alias belongs to another object and may be dropped']
-BUDGET = {'quick': (8, 80), 'thorough': (16, 500)}
+BUDGET = {'quick': (8, 240), 'thorough': (16, 1800)}
 HOME = {'t1': 'int1', 't2': 'int2', 't3': 'int1'}
 
 
